@@ -72,7 +72,9 @@ fn types_program(succ: &[Vec<usize>], is_enum: &[bool], wrap: &dyn Fn(usize, usi
                 text.push_str(&format!("enum T{i}{under} {{ {} }}\n", es.join(", ")));
             }
         } else {
-            text.push_str(&format!("struct T{i} {{ {} }}\n", fs.join(", ")));
+            // some structs are compact: only those can be dictionary keys, so that the key validation (a LATER, recursive phase) walks into them
+            let compact = if wrap(i, 5) % 3 == 0 { "compact " } else { "" };
+            text.push_str(&format!("{compact}struct T{i} {{ {} }}\n", fs.join(", ")));
         }
         fields_out.push(fl);
     }
